@@ -10,7 +10,7 @@ import z3
 
 from . import ops as O
 
-Z3_TIMEOUT_MS = {'quick': 20000, 'thorough': 120000}
+Z3_TIMEOUT_MS = {'quick': 20000, 'thorough': 120000, 'refute': 5000}   # refute: looking for `sat` only (small-scope refutation)
 
 
 _MULF = z3.Function('vf.mul', z3.IntSort(), z3.IntSort(), z3.IntSort())
@@ -103,6 +103,7 @@ def to_smt2(ob, light=False):
 
 def _solve(job):
     name, text, timeout_ms, seed = job
+    refute_only = timeout_ms == Z3_TIMEOUT_MS['refute']
     light = None
     if isinstance(text, tuple):
         light, text = text
@@ -121,7 +122,7 @@ def _solve(job):
             pass
     try:
         # slow queries are the unstable ones: a few differently seeded attempts before giving up
-        for attempt in range(3):
+        for attempt in range(1 if refute_only else 3):
             s = z3.Solver()
             s.set('timeout', timeout_ms)
             s.set('random_seed', seed + 7919 * attempt)
@@ -138,7 +139,7 @@ def _solve(job):
         res, detail = 'error', repr(e)
     dt = time.time() - t0
     backend = 'z3'
-    if res in ('unknown', 'error') and os.path.exists('/usr/bin/cvc5'):
+    if res in ('unknown', 'error') and os.path.exists('/usr/bin/cvc5') and not refute_only:
         try:
             with tempfile.NamedTemporaryFile('w', suffix='.smt2', delete=False, dir=os.environ.get('VERIF_TMP', None)) as f:
                 f.write('(set-logic ALL)\n' + text)
